@@ -337,7 +337,10 @@ func resolveCatalogRefs(c *catalog.Catalog, rvs []*ast.RangeVar, args []paramRef
 			if n.TypeName == nil {
 				return nil, fmt.Errorf("*ast.TypeCast has nil type name")
 			}
-			col := toColumn(n.TypeName)
+			col, err := toColumn(n.TypeName)
+			if err != nil {
+				return nil, err
+			}
 			col.Name = parameterName(ref.ref.Number, col.Name)
 			a = append(a, Parameter{
 				Number: ref.ref.Number,
